@@ -453,4 +453,81 @@ theorem population_refines (vals : List (List K)) :
     simp only [population_get_impl, population_get_impl.body, Py.seq, Py.bindS, h1, List.nil_append, maxInts_lens vals hne, Py.bind,
       h2, hrows, hstack, Py.finish, Option.map_some]
 
+/-! ## the front end: `PopulationsFeatureExtractor._get_impl` -/
+
+section populations
+variable (T F : Nat)
+
+/-- a tree's vector followed by zeros up to width `F` -/
+def padF (vv : List K) : List K := vv ++ List.replicate (F - vv.length) (0 : K)
+/-- the block of one population: its trees' padded vectors, then zero rows up to `T` rows -/
+def blockOf (pop : List (List K)) : List (List K) :=
+  pop.map (padF F) ++ List.replicate (T - pop.length) (List.replicate F (0 : K))
+
+theorem setRow_step (out : List (List (List K))) (i j : Nat) (blk : List (List K)) (vv : List K)
+    (hi : out[i]? = some blk) (hj : blk[j]? = some (List.replicate F (0 : K))) (hv : vv.length ≤ F) :
+    Py.Sh.setRowPrefix3 out (i : Int) (j : Int) (Py.len vv) vv = some (out.set i (blk.set j (padF F vv))) := by
+  have hi' : i < out.length := by
+    rcases Nat.lt_or_ge i out.length with h | h
+    · exact h
+    · rw [List.getElem?_eq_none h] at hi; cases hi
+  have hj' : j < blk.length := by
+    rcases Nat.lt_or_ge j blk.length with h | h
+    · exact h
+    · rw [List.getElem?_eq_none h] at hj; cases hj
+  have hneg : ¬ ((vv.length : Int) < 0) := by omega
+  have hw : (Py.slice (List.replicate F (0 : K)) none (some (Py.len vv))).length = vv.length := by
+    simp [Py.slice, Py.sliceBound, Py.len, hneg]; omega
+  unfold Py.Sh.setRowPrefix3
+  rw [Py.idx_nat _ _ hi', hi, Option.bind_some, Py.idx_nat _ _ hj', hj, Option.bind_some]
+  simp only [hw, if_true, Option.bind_some, Py.setIdx_nat _ _ _ hj', Py.setIdx_nat _ _ _ hi', List.drop_replicate, padF]
+
+theorem block_get (done : List (List K)) (h : done.length < T) :
+    (done.map (padF F) ++ List.replicate (T - done.length) (List.replicate F (0 : K)))[done.length]? = some (List.replicate F (0 : K)) := by
+  rw [List.getElem?_append_right (by simp)]
+  have e : T - done.length = (T - done.length - 1) + 1 := by omega
+  rw [List.length_map, Nat.sub_self, e, List.replicate_succ]; rfl
+
+theorem block_set (done : List (List K)) (vv : List K) (h : done.length < T) :
+    (done.map (padF F) ++ List.replicate (T - done.length) (List.replicate F (0 : K))).set done.length (padF F vv)
+      = (done ++ [vv]).map (padF F) ++ List.replicate (T - (done ++ [vv]).length) (List.replicate F (0 : K)) := by
+  rw [List.set_append_right _ _ (by simp)]
+  obtain ⟨m, hm⟩ : ∃ m, T - done.length = m + 1 := ⟨T - done.length - 1, by omega⟩
+  have hm' : T - (done ++ [vv]).length = m := by simp; omega
+  simp [hm, hm', List.replicate_succ]
+  omega
+
+theorem inner_loop (i : Nat) : ∀ (rest done : List (List K)) (v : populations_get_impl.V K), v.i = (i : Int) → i < v.out.length →
+    v.out[i]? = some (done.map (padF F) ++ List.replicate (T - done.length) (List.replicate F (0 : K))) →
+    done.length + rest.length ≤ T → (∀ vv ∈ rest, vv.length ≤ F) →
+    ∃ j' vv', Py.forEach populations_get_impl.for5 (Py.enumFrom (done.length : Int) rest) v =
+      .next { v with j := j', vv := vv', out := v.out.set i (blockOf T F (done ++ rest)) } := by
+  intro rest
+  induction rest with
+  | nil =>
+    intro done v _ hi ho _ _
+    refine ⟨v.j, v.vv, ?_⟩
+    simp only [Py.enumFrom, Py.forEach, List.append_nil, blockOf]
+    obtain ⟨_, hget⟩ := List.getElem?_eq_some_iff.1 ho
+    have e : v.out.set i (done.map (padF F) ++ List.replicate (T - done.length) (List.replicate F (0 : K))) = v.out := by
+      rw [← hget]; exact List.set_getElem_self _
+    rw [e]
+  | cons x xs ih =>
+    intro done v hvi hi ho hlen hF
+    have hd : done.length < T := by simp at hlen; omega
+    have hx : x.length ≤ F := hF x List.mem_cons_self
+    have hstep := setRow_step F v.out i done.length _ x ho (block_get T F done hd) hx
+    rw [block_set T F done x hd] at hstep
+    obtain ⟨j', vv', hr⟩ := ih (done ++ [x])
+      { v with j := (done.length : Int), vv := x, out := v.out.set i ((done ++ [x]).map (padF F) ++ List.replicate (T - (done ++ [x]).length) (List.replicate F (0 : K))) }
+      hvi (by simpa using hi) (by simp [hi]) (by simp at hlen ⊢; omega) (fun vv h => hF vv (List.mem_cons_of_mem _ h))
+    refine ⟨j', vv', ?_⟩
+    have e : ((done ++ [x]).length : Int) = (done.length : Int) + 1 := by simp
+    rw [e] at hr
+    simp only [Py.enumFrom, Py.forEach, populations_get_impl.for5, hvi, hstep, Py.bind]
+    simp only [hvi] at hr
+    rw [hr]
+    simp [List.append_assoc]
+end populations
+
 end RefineSholl
